@@ -67,13 +67,15 @@ structure Run where
   deriving Repr, DecidableEq
 
 def Run.cons (e : Entry) (r : Run) : Run := { r with entries := e :: r.entries }
+/-- the same run with `es` delivered first -/
+def Run.prepend (es : List Entry) (r : Run) : Run := { r with entries := es ++ r.entries }
 
 inductive Step where
   | eof
   | skip (rest : Bytes)
   | entry (e : Entry) (rest : Bytes)
   | fail (e : End)
-  deriving Repr
+  deriving Repr, DecidableEq
 
 def endOfRes {α} : Res α → End
   | .ok _ => .ok
@@ -125,27 +127,30 @@ def headerClass {α} (r : Res α) : End :=
   | .err _ => .err "hdr"
   | r => endOfRes r
 
+/-- what `readBlock` does with one line and the bytes following it -/
+def uripostLine (fixed : Bool) (urlOk : Bytes → Bool) (line rest : Bytes) : Step :=
+  let data := trimSpace line
+  if data.isEmpty then .skip rest
+  else match indexC data 0 with
+    | .ok 91 =>
+      match decodeHeader data with
+      | .ok _ => .skip rest
+      | r => .fail (headerClass r)
+    | .ok _ =>
+      match decodeURI data with
+      | .ok (size, uri, tag) =>
+        if !urlOk uri then .fail (.err "other")
+        else match readBody fixed size rest with
+          | .ok (body, rest') => .entry ⟨tag, uri, body⟩ rest'
+          | r => .fail (endOfRes r)
+      | r => .fail (endOfRes r)
+    | r => .fail (endOfRes r)
+
 /-- one `readBlock` call of the uripost decoder -/
 def uripostStep (fixed : Bool) (urlOk : Bytes → Bool) (s : Bytes) : Step :=
   match readLine s with
   | none => .eof
-  | some (line, rest) =>
-    let data := trimSpace line
-    if data.isEmpty then .skip rest
-    else match indexC data 0 with
-      | .ok 91 =>
-        match decodeHeader data with
-        | .ok _ => .skip rest
-        | r => .fail (headerClass r)
-      | .ok _ =>
-        match decodeURI data with
-        | .ok (size, uri, tag) =>
-          if !urlOk uri then .fail (.err "other")
-          else match readBody fixed size rest with
-            | .ok (body, rest') => .entry ⟨tag, uri, body⟩ rest'
-            | r => .fail (endOfRes r)
-        | r => .fail (endOfRes r)
-      | r => .fail (endOfRes r)
+  | some (line, rest) => uripostLine fixed urlOk line rest
 
 def runSteps (step : Bytes → Step) : Nat → Bytes → Run
   | 0, s => ⟨[], .fuel, s⟩
@@ -171,20 +176,23 @@ def decodeRawHeader (data : Bytes) : Res (Int × Bytes) :=
   | none => .err "size"
   | some n => .ok (n, tag)
 
+/-- what `rawDecoder.Scan` does with one line and the bytes following it -/
+def rawLine (fixed : Bool) (line rest : Bytes) : Step :=
+  let data := trimSpace line
+  if data.isEmpty then .skip rest
+  else match decodeRawHeader data with
+    | .ok (size, tag) =>
+      if size = 0 then .entry ⟨[], [], []⟩ rest       -- `a.Setup(nil, "", …)`: the tag of an empty request is dropped
+      else match readBody fixed size rest with
+        | .ok (body, rest') => .entry ⟨tag, [], body⟩ rest'
+        | r => .fail (endOfRes r)
+    | r => .fail (endOfRes r)
+
 /-- one iteration of `rawDecoder.Scan` -/
 def rawStep (fixed : Bool) (s : Bytes) : Step :=
   match readLine s with
   | none => .eof
-  | some (line, rest) =>
-    let data := trimSpace line
-    if data.isEmpty then .skip rest
-    else match decodeRawHeader data with
-      | .ok (size, tag) =>
-        if size = 0 then .entry ⟨[], [], []⟩ rest       -- `a.Setup(nil, "", …)`: the tag of an empty request is dropped
-        else match readBody fixed size rest with
-          | .ok (body, rest') => .entry ⟨tag, [], body⟩ rest'
-          | r => .fail (endOfRes r)
-      | r => .fail (endOfRes r)
+  | some (line, rest) => rawLine fixed line rest
 
 def rawRun (fixed : Bool) (s : Bytes) : Run :=
   runSteps (rawStep fixed) (s.length + 1) s
